@@ -245,7 +245,7 @@ func H_C02_string() {
 var floatCorpus = []string{
 	"0", "-0", "0.0", "1", "1.5", "-1.5", "16777217", "16777216", "9007199254740993", "1e400", "-1e400", "1e-400", "4.9e-324", "1.4e-45",
 	"3.4028235e38", "3.4028236e38", "3.5e38", "0.1", "0.30000000000000004", "1.0000000596046448", "1.00000005960464477539062500001",
-	"0x1p-2", "0x1.fffffep127", "Inf", "-Inf", "+Inf", "infinity", "NaN", "nan", "1_0.5", "1e", "", " 1", "1,5", "abc", "0x", "1e5", ".5", "5.",
+	"0x1p-2", "0x1.fffffep127", "010", "0x10", "0b101", "0o17", "1_0", "0x_1", "Inf", "-Inf", "+Inf", "infinity", "NaN", "nan", "1_0.5", "1e", "", " 1", "1,5", "abc", "0x", "1e5", ".5", "5.",
 }
 
 func H_C02_float64() {
